@@ -186,7 +186,7 @@ def check_values(repo, res, rule, table, why):
         raise AnalysisError('no initial value found (%s anchor moved)' % rule)
 
 
-def check_fields_from_params(repo, res, rule, cls_name, table, why):
+def check_fields_from_params(repo, res, rule, cls_name, table, why, accept=None):
     """table: {field: constructor parameter}; the field must be initialised with exactly that
     argument (a copy idiom of it is accepted for containers)"""
     canon = Canon(repo)
@@ -205,6 +205,8 @@ def check_fields_from_params(repo, res, rule, cls_name, table, why):
         n += 1
         v = state[loc]
         src = copy_source(v)
+        if src is None and accept is not None:
+            src = accept(field, v)
         got = src if src is not None else v
         what = '%s.%s <- constructor argument %s' % (cls_name, field, param)
         if isinstance(got, ast.Name) and got.id == param:
